@@ -81,9 +81,9 @@ def gen_spec(rng: random.Random, *, allow_times=True, plain_groups=False, max_gr
         k = rng.randint(0, min(3, len(metric_pool)))
         spec["glob_metrics"] = rng.sample(metric_pool, k)
     inst = spec["inst_metrics"] or ["DSC", "IOU", "ASSD", "RVD"]
-    if rng.random() < 0.25:
+    if rng.random() < 0.35:
         dm = rng.choice(inst)
-        thr = rng.choice([0.5, 0.3, 0.8]) if dm in ("DSC", "IOU", "clDSC") else rng.choice([0.5, 1.0, 2.0])
+        thr = rng.choice([0.5, 0.3, 0.8, 0.9]) if dm in ("DSC", "IOU", "clDSC") else rng.choice([0.5, 1.0, 2.0])
         spec["decision"] = [dm, thr]
     if rng.random() < 0.5:
         used = sorted(set(inst) | set(spec["glob_metrics"] if spec["glob_metrics"] is not None else ["DSC"]) | {"DSC", "IOU"})
